@@ -277,7 +277,7 @@ class Gen:
             kinds.append("def")
         k = r.choice(kinds)
         if k == "if":
-            nb = r.choice([1, 1, 2, 2, 2, 3, 4])
+            nb = r.choice([1, 1, 2, 2, 2, 3, 4, 3, 4, 5, 6])
             return ["if", [self.body(self.sub(env), 0, 3) for _ in range(nb)]]
         if k == "for":
             name = None
@@ -291,6 +291,11 @@ class Gen:
             # keep most while loops terminating: "{:|‹ ...}" style countdowns or explicit break
             style = r.random()
             e = self.sub(env, loop=True)
+            if style < 0.15:
+                # condition reads the enclosing context: "{:n<|›}" counts up to n
+                cond = [["el", ":"], ["el", "n"], ["el", r.choice(["<", ">"])]]
+                body = [["el", r.choice(["›", "‹"])]] + self.body(e, 0, 1)
+                return ["while", cond, body]
             if style < 0.45:
                 cond = [["el", ":"]]
                 body = [["el", "‹"]] + self.body(e, 0, 2)
